@@ -67,7 +67,11 @@ type inst struct {
 	name    string
 	streams []stream
 	nextBit int
+	asSum   bool // a view re-aggregates this (histogram) instrument as a sum
 }
+
+// sumLike: the instrument's streams are sums whose values decode to sets of measurements.
+func (in *inst) sumLike() bool { return in.kind.isSum() || in.asSum }
 
 type attrSet struct{ a, b int } // a in -1..2 (-1: absent), b in -1..1
 
@@ -358,7 +362,7 @@ func (engine) Body(r *simdrv.Run) {
 	w.interval = times[1+r.Cfg(3)]
 	perTimeout := times[r.Cfg(len(times))]
 	w.perTemp = []metricdata.Temporality{metricdata.DeltaTemporality, metricdata.CumulativeTemporality}[r.Cfg(2)]
-	viewMode := r.Cfg(4) // 0 none, 1 filter on counter_i, 2 rename counter_f + drop hist, 3 two views on updown
+	viewMode := r.Cfg(5) // 0 none, 1 filter on counter_i, 2 rename counter_f + drop hist, 3 two views on updown, 4 histogram re-aggregated as a (renamed) sum
 	w.bounds = []float64{1, 4, 16, 256, 65536}
 
 	// instruments
@@ -375,6 +379,9 @@ func (engine) Body(r *simdrv.Run) {
 			in.streams = []stream{{name: "renamed_counter_f"}}
 		case viewMode == 2 && k == kHistI:
 			in.streams = []stream{{name: in.name, dropped: true}}
+		case viewMode == 4 && k == kHistI:
+			in.streams = []stream{{name: "hist_as_sum"}}
+			in.asSum = true
 		case viewMode == 3 && k == kUpDownI:
 			in.streams = []stream{{name: "updown_by_a", keep: []string{"a"}}, {name: "updown_all"}}
 		}
@@ -483,6 +490,8 @@ func (engine) Body(r *simdrv.Run) {
 		opts = append(opts, sdkmetric.WithView(
 			sdkmetric.NewView(sdkmetric.Instrument{Name: "counter_f"}, sdkmetric.Stream{Name: "renamed_counter_f"}),
 			sdkmetric.NewView(sdkmetric.Instrument{Name: "hist_i"}, sdkmetric.Stream{Aggregation: sdkmetric.AggregationDrop{}})))
+	case 4:
+		opts = append(opts, sdkmetric.WithView(sdkmetric.NewView(sdkmetric.Instrument{Name: "hist_i"}, sdkmetric.Stream{Name: "hist_as_sum", Aggregation: sdkmetric.AggregationSum{}})))
 	case 3:
 		opts = append(opts, sdkmetric.WithView(
 			sdkmetric.NewView(sdkmetric.Instrument{Name: "updown_i"}, sdkmetric.Stream{Name: "updown_by_a", AttributeFilter: keepA}),
